@@ -30,7 +30,7 @@ def strategy_case(draw):
     case = {"form": form, "N": N, "seed": draw(gen.SEED), "lib_seed": draw(gen.SEED),
             "Rx": draw(gen.ranks(d, 4)), "Rz": draw(gen.ranks(d, 2)),
             "zmax": draw(st.sampled_from([0.3, 1.0, 2.0])), "c": draw(st.sampled_from([1.0, 1.0, 0.5, 3.0]))}
-    if form in ("x/y", "s/y", "ediv") and draw(st.integers(0, 11)) == 0:
+    if form in ("x/y", "s/y", "ediv") and draw(st.integers(0, 5)) == 0:
         # large local problems: the quotient's ranks grow until r*n*r >= 500, which switches the local solver of the
         # AMEn division from the dense solve to (preconditioned) GMRES
         k = draw(st.integers(2, 3))
